@@ -9,13 +9,14 @@ import (
 )
 
 type GenOpts struct {
-	Mode      string // pregel | dag | mixed
-	MaxNodes  int
-	Depth     int  // remaining nesting depth for graph nodes
-	Cycles    bool // allow back edges (pregel only)
-	FailPct   int  // percent of failing node bodies
-	BranchPct int  // chance (percent) that a node gets a branch
-	NoNested  bool
+	Mode        string // pregel | dag | mixed
+	MaxNodes    int
+	Depth       int  // remaining nesting depth for graph nodes
+	Cycles      bool // allow back edges (pregel only)
+	FailPct     int  // percent of failing node bodies
+	BranchPct   int  // chance (percent) that a node gets a branch
+	NoNested    bool
+	NegLimitPct int // percent of pregel graphs compiled with an explicit step limit below 1 (refused at run start)
 }
 
 func has(edges [][2]string, a, b string) bool {
@@ -173,6 +174,8 @@ func Gen(r *vh.Rand, o GenOpts) *Graph {
 	}
 	if !dag && r.Chance(30) {
 		g.MaxSteps = r.Range(1, 7)
+	} else if !dag && r.Chance(o.NegLimitPct) {
+		g.NegMaxSteps = true
 	}
 	return g
 }
